@@ -300,6 +300,9 @@ def monitor(case, lines):
         p = l.split()
         if p[0] == "note":
             return l
+        if l.startswith("c ro "):
+            return ("%s during the run: the handles' cached fields, word_size, ref_count and the path names must not be "
+                    "written after qb_rb_open (the one-state model of the two handles depends on it)" % l[5:])
         if p[0] == "open":
             if p[1] != "0":
                 return "qb_rb_open failed: " + l
